@@ -200,6 +200,8 @@ pub struct DeviceDescription {
     pub header_reserved: Vec<u8>,
     /// Raw content of header bytes 0x20..0x28 (words 0x10..0x13, reserved / delays).
     pub header_reserved_low: [u8; 8],
+    /// The reserved words 5 and 6 of the header (covered by the checksum; zero in most images).
+    pub header_words_5_6: [u16; 2],
 
     pub sync_managers: Vec<SmDesc>,
     pub fmmu_usage: Vec<u8>,
@@ -248,6 +250,7 @@ impl Default for DeviceDescription {
             has_general: true,
             header_reserved: Vec::new(),
             header_reserved_low: [0; 8],
+            header_words_5_6: [0; 2],
             sync_managers: Vec::new(),
             fmmu_usage: Vec::new(),
             fmmu_ex: Vec::new(),
@@ -432,8 +435,8 @@ pub fn encode_header(d: &DeviceDescription) -> Vec<u8> {
     put16(&mut h, d.sync_impulse_len);
     put16(&mut h, d.pdi_config2);
     put16(&mut h, d.alias);
-    put16(&mut h, 0);
-    put16(&mut h, 0);
+    put16(&mut h, d.header_words_5_6[0]);
+    put16(&mut h, d.header_words_5_6[1]);
     let crc = crc8(&h[0..14]);
     put16(&mut h, u16::from(crc));
     put32(&mut h, d.vendor_id);
